@@ -1,10 +1,12 @@
 #!/bin/sh
 # ./check.sh <property> <quick|thorough>     or     ./check.sh <property> --replay <file>
-# Rebuilds everything it needs from /repo's current working tree.
+# Rebuilds everything it needs from the repository's current working tree (VERIF_REPO, default /repo).
 export GOFLAGS=-mod=mod GOPROXY=off GOSUMDB=off GOTOOLCHAIN=local
-cd /verif/sim || exit 2
-mkdir -p /verif/bin
-if [ ! -x /verif/bin/check ] || [ -n "$(find /verif/sim/cmd/check -newer /verif/bin/check -name '*.go' 2>/dev/null)" ]; then
-  go1.26.8 build -o /verif/bin/check.$$ ./cmd/check && mv /verif/bin/check.$$ /verif/bin/check || exit 2
+VERIF_DIR=$(cd "$(dirname "$0")" && pwd)
+export VERIF_DIR
+cd "$VERIF_DIR/sim" || exit 2
+mkdir -p "$VERIF_DIR/bin"
+if [ ! -x "$VERIF_DIR/bin/check" ] || [ -n "$(find "$VERIF_DIR/sim/cmd/check" -newer "$VERIF_DIR/bin/check" -name '*.go' 2>/dev/null)" ]; then
+  go1.26.8 build -o "$VERIF_DIR/bin/check.$$" ./cmd/check && mv "$VERIF_DIR/bin/check.$$" "$VERIF_DIR/bin/check" || exit 2
 fi
-exec /verif/bin/check "$@"
+exec "$VERIF_DIR/bin/check" "$@"
